@@ -35,7 +35,8 @@ RULE = (
     "state = canonical simulator state per period of the base run; non-trivial = base scenario with >=2 sessions in which some constraint-limited or level-limited pilot occurs (pilot < EVSE max while charging)"
 )
 ASSUMPTIONS = [
-    "sorted schedulers are exercised on the all-finite-rate network only (property: 'finite-rate sorted schedulers'), with pairwise distinct arrivals/departures/energies so no decision hinges on a tie",
+    "N11: duplicated constraint rows with different limits and a pod too tight for all minimum rates (uninterrupted charging)",
+    "sorted schedulers are exercised on the all-finite-rate networks only (property: 'finite-rate sorted schedulers'), with pairwise distinct arrivals/departures/energies so no decision hinges on a tie",
     "time-shift comparison only for base scenarios whose first arrival is at period 0 and only for columns >= k (before the first event the max_recompute cadence is anchored at period 0 by design)",
     "scripted schedulers are functions of the column index relative to t0 (shifted with the scenario), i.e. time-shift-invariant programs",
     "per-station rows and per-session energies are compared exactly (every EV's arithmetic is independent of the other stations); peak (a float sum over stations) is compared in the identical-rebuild variant only",
@@ -52,11 +53,14 @@ SCHEDS = {
     "edf-rr": ({"kind": "rr", "sort": "edf", "inc": 1}, 1),
     "llf": ({"kind": "greedy", "sort": "llf"}, None),
     "lrpt-rr": ({"kind": "rr", "sort": "lrpt", "inc": 1}, 2),
+    "fcfs-unint": ({"kind": "greedy", "sort": "fcfs", "unint": True}, 1),
+    "edf-rr-unint": ({"kind": "rr", "sort": "edf", "inc": 1, "unint": True}, 1),
 }
 NET_SCHEDS = {
     "N2": ("altcol1", "altcol3", "actmax", "unc", "unc-k1"),
     "N3": ("altcol1", "altcol3"),
     "N6": ("fcfs", "edf-rr", "llf", "lrpt-rr", "unc"),
+    "N11": ("fcfs-unint", "edf-rr-unint", "llf"),
 }
 
 
@@ -84,7 +88,7 @@ def sess(st, a, stay, kind, i):
 
 def base_scenarios(tier):
     thorough = tier == "thorough"
-    for netname in ("N6", "N2", "N3"):
+    for netname in ("N6", "N2", "N3", "N11"):
         stations = list(S.NETS[netname]["stations"])
         pool = [sess(st, a, sy, kd, i) for i, (st, a, sy, kd) in enumerate(itertools.product(stations, (0, 1, 2), (2, 3) if not thorough else (1, 2, 4), ("big", "small", "l2c")))]
         pool3 = [sess(st, a, sy, kd, i) for i, (st, a, sy, kd) in enumerate(itertools.product(stations, (0, 1, 2), (2, 3), ("big", "small")))]
@@ -93,7 +97,7 @@ def base_scenarios(tier):
             # pairwise distinct priority keys: arrivals and departures all different
             if len({s["a"] for s in ss}) < len(ss) or len({s["d"] for s in ss}) < len(ss):
                 continue
-            if len(ss) == 3 and len({s["st"] for s in ss}) < 3 and netname != "N6":
+            if len(ss) == 3 and len({s["st"] for s in ss}) < 3 and netname not in ("N6", "N11"):
                 continue
             for j, s in enumerate(ss):
                 s["ed"] = s["d"] + (2, 0, 1)[j % 3]  # distinct estimated departures, same order as departures? no: decoupled
